@@ -8,7 +8,7 @@ SETR = [
     (r'SCOPED_LOCK\(m_lock\);', '/* m_lock held */;', 1),
     (r'(?:auto|__auto_type) it = m_index\.lower_bound\(r\);', 'int it = set_lower_bound(&r);', 1),
     (r'm_index\.end\(\)', 'SET_END', 1),
-    (r'it->offset', 'S[it].offset', 1),
+    (r'it->(offset|length)\b', r'S[it].\1', 1),
     (r'it->end\(\)', 'range_end(&S[it])', 0),
     (r'r\.end\(\)', 'range_end(&r)', 1),
     (r'it->cond\.wait\(m_lock\);', 'cond_wait(it);', 1),
@@ -39,17 +39,25 @@ TARGETS = [
         (r'(?:auto|__auto_type) r0 = \(range_t\*\) &\*it;', 'struct range_t *r0 = &S[it];', 1),
         (r'r1\.end\(\)', 'range_end(&r1)', 2), (r'it->end\(\)', 'range_end(&S[it])', 1),
         (r'(?<![\w>.])prev_end\(', 'RL_prev_end(', 1), (r'(?<![\w>.])next_offset\(', 'RL_next_offset(', 1)]),
+    Target('unlock_range', RL, r'void unlock\(uint64_t offset, uint64_t length\)', rules=[
+        (r'range_t r\(offset, length\);', 'struct range_t r; range_ctor(&r, offset, length);', 1)] + SETR[1:7] + [
+        (r'r\.contains\(\*it\)', 'range_contains(&r, &S[it])', 1), (r'm_index\.erase\(it\)', 'set_erase(it)', 1)],
+        marks={'count': 1, 0: dict(name='UL', frame=['it', 'G1_ERASED', 'N_ERASE'], effects={'set_erase': ['G1_ERASED', 'N_ERASE']}, pure=['range_end', 'range_contains'])}),
+    Target('unlock_handle', RL, r'void unlock\(LockHandle\* h\)', rules=[
+        (r'SCOPED_LOCK\(m_lock\);', '/* m_lock held */;', 1), (r'(?:auto|__auto_type) it = __reinterpret_cast<iterator>\(h\);', 'int it = h;', 1), (r'm_index\.erase\(it\)', 'set_erase(it)', 1)]),
 ]
-UNITS = {'rl.c': 'rl.c.in'}
+UNITS = {'rl.c': 'rl.c.in', 'unlock.c': 'unlock.c.in'}
 PROOFS = [
     Proof('order_lemmas', 'rl.c', 'lemma_order', kind='L', min_obligations=5),
     Proof('try_lock/grant', 'rl.c', 'h_try_lock_wait', kind='L', min_obligations=5, canaries=2),
-    Proof('try_lock/refuse', 'rl.c', 'h_try_lock_conflict', kind='L', min_obligations=3),
-    Proof('adjust_range', 'rl.c', 'h_adjust', kind='L', min_obligations=4, backend='cadical', timeout=600),
+    Proof('try_lock/refuse', 'rl.c', 'h_try_lock_conflict', kind='L', min_obligations=3, backend='cadical', timeout=3600),
+    Proof('unlock/range', 'unlock.c', 'h_unlock_range', kind='L', min_obligations=4, backend='cadical'),
+    Proof('unlock/handle', 'unlock.c', 'h_unlock_handle', kind='L', min_obligations=2),
+    Proof('adjust_range', 'rl.c', 'h_adjust', kind='L', min_obligations=4, backend='cadical', timeout=3600),
 ]
 NATIVES = []
 AUX_VIOLATION = True    # no native oracle: a failing loop-rule obligation is reported (no-failing-input-found), see DESIGN §4
 TRUSTED = ['cbmc 6.11.0', 'lowering rules of specs/C18/spec.py', 'std::set modelled as a sorted array with assumed lower_bound/emplace_hint/erase contracts']
 NOT_DECIDED = ['a waiter is woken when the conflicting range is unlocked and eventually acquires (condition variable + scheduler)',
-               'unlock(offset,length) erase loop (std::set iterator invalidation semantics)']
+               'that ~Range() wakes the waiters (condition_variable::notify_all in a destructor run by std::set::erase)']
 ASSUMPTIONS = []
